@@ -237,4 +237,10 @@ example : (fcRun FC.init exFC).Reachable := ⟨exFC, rfl⟩
 example : (fcStep (fcRun FC.init (exFC.take 2)) (.updBegin 1 "g")).2 = .busy := by decide
 example : (fcStep (fcRun FC.init (exFC.take 3)) (.loopStart "g")).2 = .loopRefused := by decide
 
+/-- Tie (T1): the providers' fill functions hand the directory's error back **unwrapped** (`return nil, err`), so the fill cache's
+`err == ErrGroupNotFound` test sees the sentinel and forgets a deleted group. -/
+theorem C17_skeleton_fill :
+    Sso.Generated.skel_google_PopulateMembers = ["call:ListMemberships", "if{", "return", "}", "range{", "store:memberSet[]", "}", "return"] ∧
+    Sso.Generated.skel_cognito_PopulateMembers = ["call:ListMemberships", "if{", "return", "}", "range{", "store:memberSet[]", "}", "return"] := by decide
+
 end Sso.Caches
